@@ -130,23 +130,34 @@ func oracleLoop(c *Case, idx int, out *childOut) {
 				}
 			}
 		}
-		for k, v := range t.EchoSeq {
-			if v != k {
-				bad("message-lost-while-connected", fmt.Sprintf("long-lived connection: echoes arrived as ... %v (position %d holds message %d): a message handed to r.Out was lost or reordered", t.EchoSeq[max0(k-2):min(len(t.EchoSeq), k+3)], k, v))
-				break
-			}
+		// what has to come out at the far end, in this order: every numbered message (pkg/status run: every
+		// decodable report) - nothing else, nothing twice, nothing missing
+		garbled := map[int]bool{}
+		for _, g := range t.Garbled {
+			garbled[g] = true
 		}
+		var expect []int
 		due := 0
-		for _, at := range t.SentAt {
+		for nmsg, at := range t.SentAt {
+			if garbled[nmsg] {
+				continue
+			}
+			expect = append(expect, nmsg)
 			if t.CancelAt < 0 || at < t.CancelAt-1000*ms {
 				due++
 			}
 		}
-		if len(t.EchoSeq) < due {
-			bad("message-lost-while-connected", fmt.Sprintf("long-lived connection: %d numbered messages were handed to r.Out at least 1 s before the cancellation, only %d came back from the echoing server", due, len(t.EchoSeq)))
+		for k, v := range t.EchoSeq {
+			if k >= len(expect) || v != expect[k] {
+				bad("message-lost-while-connected", fmt.Sprintf("long-lived connection: the far end received ... %v (position %d holds message %d): a message was lost, duplicated, reordered, or an undecodable one got through", t.EchoSeq[max0(k-2):min(len(t.EchoSeq), k+3)], k, v))
+				break
+			}
 		}
-		if due < int(c.Stay/int64(400*ms))-5 {
-			bad("message-lost-while-connected", fmt.Sprintf("long-lived connection: r.Out accepted only %d messages in %s (one is offered every 300 ms)", due, fmtDur(c.Stay)))
+		if len(t.EchoSeq) < due {
+			bad("message-lost-while-connected", fmt.Sprintf("long-lived connection: %d numbered messages were sent at least 1 s before the cancellation, only %d arrived at the far end", due, len(t.EchoSeq)))
+		}
+		if len(t.SentAt) < int(c.Stay/int64(400*ms))-8 {
+			bad("message-lost-while-connected", fmt.Sprintf("long-lived connection: only %d messages could be passed in %s (one is offered every 300 ms)", len(t.SentAt), fmtDur(c.Stay)))
 		}
 	}
 
@@ -193,6 +204,24 @@ func oracleLoop(c *Case, idx int, out *childOut) {
 		}
 		if c.Obs[i].Est && i != c.Cancel.I && i < len(c.Sched) && c.Sched[i].W != "acceptdropw" && c.Sched[i].W != "acceptstay" && len(t.InSeq[i]) != c.Sched[i].K {
 			bad("message-lost-while-connected", fmt.Sprintf("connection %d: the server sent %d messages and was acknowledged, r.In delivered %d", i, c.Sched[i].K, len(t.InSeq[i])))
+		}
+	}
+}
+
+// oracleBoffJ: with jitter the documented contract is only "never below Min, never above Max".
+func oracleBoffJ(c *Case, idx int, out *childOut) {
+	mn, mx := c.Min, c.Max
+	if mn <= 0 {
+		mn = 100 * ms
+	}
+	if mx <= 0 {
+		mx = 10000 * ms
+	}
+	for k, d := range c.Ds {
+		if (mn < mx && (d < mn || d > mx)) || (mn >= mx && d != mx) {
+			out.Violations = append(out.Violations, lib.Violation{Clause: "jittered-backoff-out-of-bounds", Case: idx,
+				Detail: fmt.Sprintf("Min %d Max %d Jitter: Duration() number %d returned %d", c.Min, c.Max, k, d), Replay: *c, Key: "jittered-backoff-out-of-bounds"})
+			return
 		}
 	}
 }
